@@ -202,6 +202,34 @@ func (c *foldChecker) expect(v any) string {
 	return ""
 }
 
+// cutLists shortens every value list to its first item; it reports whether there was one.
+func cutLists(v any) bool {
+	switch x := v.(type) {
+	case *expr.Expression:
+		if x == nil {
+			return false
+		}
+		if x.Op == expr.List {
+			if items, ok := x.Left.([]*expr.Expression); ok && len(items) > 1 {
+				x.Left = items[:1]
+				return true
+			}
+		}
+		l := cutLists(x.Left)
+		r := cutLists(x.Right)
+		return l || r
+	case []*expr.Expression:
+		any := false
+		for _, e := range x {
+			if cutLists(e) {
+				any = true
+			}
+		}
+		return any
+	}
+	return false
+}
+
 // H_DriverFold (C15): Base.Render folds the tree bottom-up with exactly the supplied functions.
 func H_DriverFold() {
 	t := genTree(rtParam("D"), treeOps(), leafForms())
@@ -211,6 +239,12 @@ func H_DriverFold() {
 	if err != nil || e == nil {
 		rtAssume(false)
 		return
+	}
+	if rtParam("ONEITEM") == 1 { // value lists cut to their first item (a tree the expr API or JSON can build)
+		if !cutLists(e) {
+			rtAssume(false)
+			return
+		}
 	}
 	nodes := countNodes(e)
 	mode := rtParam("MODE") // 0 plain fold, 1 one call fails, 2 one operator missing from the map
@@ -268,5 +302,25 @@ func H_UnsupportedOps() {
 	rtAssert("fuzzy-boost-inline-fails", err != nil && s == "")
 	ps, _, perr := lucene.ToParameterizedPostgres(text)
 	rtAssert("fuzzy-boost-param-fails", perr != nil && ps == "")
+	if rtParam("PRIV") != 1 {
+		rtReach("end")
+		return
+	}
+	// a driver of one's own is one's own: registering functions on it changes nothing for the
+	// package-level driver behind ToPostgres
+	d := driver.NewPostgresDriver()
+	_, hadF := d.RenderFNs[expr.Fuzzy]
+	_, hadB := d.RenderFNs[expr.Boost]
+	ok := func(left, right string) (string, error) { return left, nil }
+	d.RenderFNs[expr.Fuzzy], d.RenderFNs[expr.Boost] = ok, ok
+	s2, err2 := lucene.ToPostgres(text)
+	ps2, _, perr2 := lucene.ToParameterizedPostgres(text)
+	if !hadF {
+		delete(d.RenderFNs, expr.Fuzzy)
+	}
+	if !hadB {
+		delete(d.RenderFNs, expr.Boost)
+	}
+	rtAssert("private-driver-is-private", err2 != nil && s2 == "" && perr2 != nil && ps2 == "")
 	rtReach("end")
 }
